@@ -14,6 +14,7 @@ import re
 import typing as t
 import zipfile
 
+import markupsafe
 from lxml import builder, etree, html
 
 import capellambse
@@ -426,7 +427,7 @@ def _build_standard_attribute_values(
             )
         elif type_ == "XHTML":
             if capella_val:
-                html_val = capella_val
+                html_val = markupsafe.escape(capella_val)
             else:
                 html_val = "<div></div>"
             xml_elem = html.fromstring(html_val)
@@ -549,7 +550,8 @@ def _build_specifications(
         )
         if (type_ := std_attr["type"]) == "XHTML":
             xml_elem = html.fromstring(
-                f"<div>{getattr(module, std_attr['attr'])}</div>"
+                f"<div>{markupsafe.escape(getattr(module, std_attr['attr']))}"
+                "</div>"
             )
             html.html_to_xhtml(xml_elem)
             spec_values.append(
